@@ -15,6 +15,7 @@ import (
 	"io"
 	"os"
 	"reflect"
+	"sort"
 
 	hessian "github.com/vogo/gohessian"
 )
@@ -37,10 +38,11 @@ const (
 	hReset
 	hReadFromSameReader
 	hWriteToSameWriter
+	hReconfigure
 	nHistOp
 )
 
-var c11OpNames = []string{"encode", "encode-unrepresentable", "WriteTo(aborted by writer fault)", "decode", "decode(damaged/cut stream)", "stream write", "stream read", "Reset", "ReadFrom(the caller's one reader, next message)", "WriteTo(the caller's one writer, next message)"}
+var c11OpNames = []string{"encode", "encode-unrepresentable", "WriteTo(aborted by writer fault)", "decode", "decode(damaged/cut stream)", "stream write", "stream read", "Reset", "ReadFrom(the caller's one reader, next message)", "WriteTo(the caller's one writer, next message)", "caller changes a registration"}
 
 const (
 	pEncode = iota
@@ -169,20 +171,35 @@ func (st *c11State) pristineMaps() (map[string]reflect.Type, map[string]string) 
 	return tm, nm
 }
 
+// fresh constructs the reference instance of a probe: over copies of the maps as the caller supplied them,
+// followed by the configuration calls the caller has made on the used instance.
+func (st *c11State) fresh() *c11Inst {
+	ftm, fnm := st.pristineMaps()
+	in := c11New(st.pair, ftm, fnm)
+	for _, act := range st.reconf {
+		guarded(func() { act(in) })
+	}
+	return in
+}
+
 type c11State struct {
-	tm0       map[string]reflect.Type
-	nm0       map[string]string
-	persistRd *SimReader    // a caller-owned reader OBJECT that is handed to ReadFrom again and again
-	persistW  *bytes.Buffer // a caller-owned writer OBJECT that is handed to WriteTo again and again
-	o         *Outcome
-	ch        *Choices
-	g         *Gen
-	in        *c11Inst
-	pair      bool
-	tmDigest  string
-	earlier   []c11Earlier
-	opLog     []string
-	aborted   int
+	tm0        map[string]reflect.Type
+	nm0        map[string]string
+	persistRd  *SimReader    // a caller-owned reader OBJECT that is handed to ReadFrom again and again
+	persistW   *bytes.Buffer // a caller-owned writer OBJECT that is handed to WriteTo again and again
+	o          *Outcome
+	ch         *Choices
+	g          *Gen
+	in         *c11Inst
+	pair       bool
+	tmDigest   string
+	reconf     []func(in *c11Inst) // configuration calls the caller made on the instance so far
+	incomplete bool                // the caller has removed an entry: the maps are no longer complete
+	lastVal    interface{}         // the value drawn last
+	lastClass  string              // wire name of the class of the struct value drawn last
+	earlier    []c11Earlier
+	opLog      []string
+	aborted    int
 }
 
 // checkEarlier re-compares everything earlier calls returned with their snapshots.
@@ -217,7 +234,9 @@ func (st *c11State) around(name string, val interface{}, in []byte, f func()) {
 	if in != nil && !bytes.Equal(in, inCopy) {
 		st.o.fail("c11/input-mutated", "bytes", "%s modified the bytes being decoded", name)
 	}
-	if d := mapsDigest(st.in.tm, st.in.nm); d != st.tmDigest {
+	// (the statement protects COMPLETE maps: once the caller has taken an entry away, a library that
+	// fills the gap in is within its rights, and the digest is no longer compared)
+	if d := mapsDigest(st.in.tm, st.in.nm); d != st.tmDigest && !st.incomplete {
 		st.o.fail("c11/input-mutated", "maps", "%s modified the caller's complete type/name map: %s", name, firstDiff(st.tmDigest, d))
 	}
 	st.checkEarlier(name)
@@ -254,6 +273,25 @@ func c11ValidBytes(v interface{}) []byte {
 // val draws the next value of a history or probe: mostly one zoo value, sometimes one wide message that
 // mentions 9..24 distinct classes (class tables grow past the sizes small messages reach).
 func (st *c11State) val() interface{} {
+	v := st.val1()
+	st.lastVal = v
+	if t := reflect.TypeOf(v); t != nil {
+		for t.Kind() == reflect.Ptr {
+			t = t.Elem()
+		}
+		if w, ok := ZooNameMap[t.Name()]; ok && t.Kind() == reflect.Struct {
+			st.lastClass = w
+		}
+	}
+	return v
+}
+
+func (st *c11State) val1() interface{} {
+	if st.lastVal != nil && st.ch.Intn(6, "val.again") == 1 {
+		// the same message once more (a caller retrying after it changed something)
+		st.o.Probes["the previous value / message used again"]++
+		return st.lastVal
+	}
 	if st.ch.Intn(10, "val.many") == 1 {
 		st.o.Probes["message with 9..24 distinct classes in a history or probe"]++
 		return st.g.ManyClasses(st.ch.Range(9, 24, "val.many.k"))
@@ -420,6 +458,92 @@ func (st *c11State) histOp(kind int) {
 		st.persistW.Reset()
 		st.around("WriteTo(same writer)", v, nil, func() { in.writeTo(st.persistW, v) })
 		st.o.Probes["WriteTo called again with the same writer object"]++
+	case hReconfigure:
+		// the maps are the caller's: between two calls it may register a class, take one away or map a name
+		// to another type (through the instance's Register* methods or by writing the map it handed in).
+		// From then on "a fresh instance" is one constructed over the maps as they are now.
+		names := sortedTypeKeys()
+		name := names[ch.Intn(len(names), "reconf.name")]
+		if st.lastClass != "" && ch.Intn(3, "reconf.last") != 0 {
+			name = st.lastClass // usually the class the instance has just dealt with
+		}
+		var typ reflect.Type // nil = take the entry away
+		switch ch.Intn(3, "reconf.what") {
+		case 1:
+			typ = ZooTypeMap[name]
+		case 2:
+			typ = ZooTypeMap[names[ch.Intn(len(names), "reconf.other")]]
+		}
+		how := ch.Intn(4, "reconf.how")
+		var act func(in *c11Inst)
+		if ch.Intn(4, "reconf.side") == 3 {
+			// the name map: a Go type gets another wire name, loses it or gets it back
+			var gname string
+			for _, g := range sortedNameKeys() {
+				if ZooNameMap[g] == name {
+					gname = g
+				}
+			}
+			if gname == "" {
+				return
+			}
+			// (the name map stays complete: an entry is renamed or restored, never removed)
+			wire := name
+			if typ != ZooTypeMap[name] {
+				wire = "alt." + name
+			}
+			act = func(in *c11Inst) {
+				enc := in.enc
+				switch {
+				case wire == "":
+					delete(in.nm, gname)
+				case enc != nil && how == 1:
+					enc.RegisterNameType(gname, wire)
+				case enc != nil && how == 2:
+					n2 := map[string]string{}
+					for k, v := range in.nm {
+						n2[k] = v
+					}
+					n2[gname] = wire
+					enc.RegisterNameMap(n2)
+					in.nm = n2
+				default:
+					in.nm[gname] = wire
+				}
+			}
+		} else {
+			act = func(in *c11Inst) {
+				dec := in.dec
+				switch {
+				case typ == nil:
+					delete(in.tm, name)
+				case dec != nil && how == 1:
+					dec.RegisterType(name, typ)
+				case dec != nil && how == 2 && typ.Kind() == reflect.Struct:
+					dec.RegisterVal(name, reflect.Zero(typ).Interface())
+				case dec != nil && how == 3:
+					t2 := map[string]reflect.Type{}
+					for k, v := range in.tm {
+						t2[k] = v
+					}
+					t2[name] = typ
+					dec.RegisterTypeMap(t2)
+					in.tm = t2
+				default:
+					in.tm[name] = typ
+				}
+			}
+		}
+		// the reference instance of the probe is constructed over the original maps and then receives the
+		// same configuration calls in the same order (so the comparison does not depend on whether an
+		// instance shares or copies the maps it was constructed with)
+		if typ == nil {
+			st.incomplete = true
+		}
+		st.reconf = append(st.reconf, act)
+		guarded(func() { act(in) })
+		st.tmDigest = mapsDigest(in.tm, in.nm)
+		st.o.Probes["caller changed a registration between two calls"]++
 	case hReset:
 		if in.enc != nil {
 			guarded(func() { in.enc.Reset(&bytes.Buffer{}) })
@@ -510,8 +634,7 @@ func (st *c11State) probe(label string) {
 	if kind == pReadFrom && st.persistRd != nil {
 		// the probe goes through the same reader object the history used
 		used := c11ProbeSameReader(st.in, st.persistRd, data)
-		ftm, fnm := st.pristineMaps()
-		fresh := c11ProbeSameReader(c11New(st.pair, ftm, fnm), NewSimReader(nil, nil), data)
+		fresh := c11ProbeSameReader(st.fresh(), NewSimReader(nil, nil), data)
 		st.o.Evals++
 		if used.canon != fresh.canon || used.err != fresh.err || used.pan != fresh.pan {
 			st.o.fail("c11/probe-differs", "ReadFrom(same reader)", "%s: after the history %v, ReadFrom through the caller's one reader returned {%s} on the used instance but {%s} on a fresh one",
@@ -532,8 +655,7 @@ func (st *c11State) probe(label string) {
 	}
 	st.in.sameW = st.persistW
 	st.around("probe "+c11ProbeNames[kind], vv, data, func() { used = c11Probe(st.in, kind, v, data) })
-	ftm, fnm := st.pristineMaps()
-	fresh := c11Probe(c11New(st.pair, ftm, fnm), kind, v, data)
+	fresh := c11Probe(st.fresh(), kind, v, data)
 	st.o.Evals++
 	if !bytes.Equal(used.bytes, fresh.bytes) || used.canon != fresh.canon || used.err != fresh.err || used.pan != fresh.pan {
 		st.o.fail("c11/probe-differs", c11ProbeNames[kind], "%s: after the history %v the probe %s returned {%s} on the used instance but {%s} on a fresh one",
@@ -590,7 +712,7 @@ func runC11(ch *Choices, cfg *RunCfg) (o *Outcome) {
 		n := ch.Pick([]int{5, 20, 20, 15, 10, 10, 10, 10}, "hist.len.kind")
 		hlen := []int{0, 1, 2, 3, 5, 8, 15, 30}[n]
 		for i := 0; i < hlen && o.Class == ""; i++ {
-			st.histOp(ch.Pick([]int{20, 8, 22, 15, 15, 8, 8, 4, 12, 8}, "hist.op"))
+			st.histOp(ch.Pick([]int{20, 8, 22, 15, 15, 8, 8, 4, 12, 8, 10}, "hist.op"))
 		}
 		if o.Class == "" {
 			st.probe("history")
@@ -767,4 +889,13 @@ func runC11(ch *Choices, cfg *RunCfg) (o *Outcome) {
 		o.Probes["history contained a call aborted half-way"]++
 	}
 	return o
+}
+
+func sortedNameKeys() []string {
+	keys := make([]string, 0, len(ZooNameMap))
+	for k := range ZooNameMap {
+		keys = append(keys, k)
+	}
+	sort.Strings(keys)
+	return keys
 }
